@@ -3,6 +3,7 @@ CONSTANTS
   Vals = {0}
   Ports = {0}
   CellVals = {0}
+  LockBit = 5
 CHECK_DEADLOCK FALSE
 INVARIANT TraceTypeOK
 INVARIANT TraceConsistent
